@@ -10,6 +10,8 @@ CONSTANTS
  Foreign = FALSE
  KindOf <- K_cae
  LoadOf <- L_cae
+ Shutdowns = FALSE
+ CancelAware = TRUE
  ClearInputs = TRUE
 INVARIANT Inv_C03
 INVARIANT Inv_C07
